@@ -1357,8 +1357,276 @@ fn sm_cases(ctx: &mut Ctx) {
     }
 }
 
+// ---------------------------------------------------------------------------------------------
+// collect_features + extend: configuration, traversal model, access model, query override
+// ---------------------------------------------------------------------------------------------
+use routee_compass::app::search::search_app_ops::collect_features;
+use routee_compass_core::model::access::{access_model::AccessModel, access_model_error::AccessModelError};
+use routee_compass_core::model::network::{Edge, Vertex};
+use routee_compass_core::model::traversal::{traversal_model::TraversalModel, traversal_model_error::TraversalModelError};
+use std::sync::Arc;
+
+struct Tm(Vec<(String, StateFeature)>);
+impl TraversalModel for Tm {
+    fn state_features(&self) -> Vec<(String, StateFeature)> {
+        self.0.clone()
+    }
+    fn traverse_edge(&self, _t: (&Vertex, &Edge, &Vertex), _s: &mut Vec<StateVar>, _m: &StateModel) -> Result<(), TraversalModelError> {
+        Ok(())
+    }
+    fn estimate_traversal(&self, _od: (&Vertex, &Vertex), _s: &mut Vec<StateVar>, _m: &StateModel) -> Result<(), TraversalModelError> {
+        Ok(())
+    }
+}
+struct Am(Vec<(String, StateFeature)>);
+impl AccessModel for Am {
+    fn state_features(&self) -> Vec<(String, StateFeature)> {
+        self.0.clone()
+    }
+    fn access_edge(&self, _t: (&Vertex, &Edge, &Vertex, &Edge, &Vertex), _s: &mut Vec<StateVar>, _m: &StateModel) -> Result<(), AccessModelError> {
+        Ok(())
+    }
+}
+
+/// values that survive a JSON round trip exactly with any float parser
+fn json_safe(rng: &mut Rng) -> f64 {
+    rng.range(-400, 4000) as f64 / 4.0
+}
+
+fn gen_feat_json_safe(rng: &mut Rng) -> Feat {
+    let types = ["soc", "count", "distance"];
+    let units = ["percent", "n"];
+    match rng.below(8) {
+        0 | 1 => Feat::D(*rng.pick(&DU), json_safe(rng)),
+        2 | 3 => Feat::T(*rng.pick(&TU), json_safe(rng)),
+        4 | 5 => Feat::E(*rng.pick(&EU), json_safe(rng)),
+        _ => {
+            let t = rng.pick(&types).to_string();
+            let u = rng.pick(&units).to_string();
+            match rng.below(4) {
+                0 => Feat::CF(t, u, json_safe(rng)),
+                1 => Feat::CI(t, u, rng.range(-1000, 1000)),
+                2 => Feat::CU(t, u, rng.below(1000) as u64),
+                _ => Feat::CB(t, u, rng.chance(1, 2)),
+            }
+        }
+    }
+}
+
+fn same_kind_variant(rng: &mut Rng, old: &Feat) -> Feat {
+    match old {
+        Feat::D(..) => Feat::D(*rng.pick(&DU), json_safe(rng)),
+        Feat::T(..) => Feat::T(*rng.pick(&TU), json_safe(rng)),
+        Feat::E(..) => Feat::E(*rng.pick(&EU), json_safe(rng)),
+        Feat::CF(t, u, _) => Feat::CF(t.clone(), u.clone(), json_safe(rng)),
+        Feat::CI(t, u, _) => Feat::CI(t.clone(), u.clone(), rng.range(-1000, 1000)),
+        Feat::CU(t, u, _) => Feat::CU(t.clone(), u.clone(), rng.below(1000) as u64),
+        Feat::CB(t, u, _) => Feat::CB(t.clone(), u.clone(), rng.chance(1, 2)),
+    }
+}
+
+fn sorted_feats(fs: &[(String, String)]) -> String {
+    let mut v: Vec<(String, String)> = fs.to_vec();
+    v.sort_by(|a, b| a.0.cmp(&b.0));
+    list_s(&v.into_iter().map(|x| x.1).collect::<Vec<_>>())
+}
+
+fn run_cf(ctx: &mut Ctx, idx: usize, cfg: Vec<(String, Feat)>, tr: Vec<(String, Feat)>, ac: Vec<(String, Feat)>, us: Option<Vec<(String, Feat)>>) {
+    let case = format!(
+        "cf {} {} {} {}",
+        feats_text(&cfg),
+        feats_text(&tr),
+        feats_text(&ac),
+        match &us {
+            None => "n".to_string(),
+            Some(fs) => format!("s {}", feats_text(fs)),
+        }
+    );
+    ctx.count(if us.is_some() { "cf_with_query_override" } else { "cf_without_query_override" });
+    let to_sf = |fs: &[(String, Feat)]| -> Vec<(String, StateFeature)> { fs.iter().map(|(n, f)| (n.clone(), f.to_sf())).collect() };
+    let res = catch_unwind(AssertUnwindSafe(|| {
+        let mut fails: Vec<(&'static str, String)> = vec![];
+        let m0 = StateModel::new(to_sf(&cfg));
+        let query = match &us {
+            None => serde_json::json!({"origin_vertex": 0}),
+            Some(fs) => {
+                let mut o = serde_json::Map::new();
+                for (n, f) in fs {
+                    o.insert(n.clone(), serde_json::to_value(f.to_sf()).unwrap());
+                }
+                serde_json::json!({"origin_vertex": 0, "state_features": o})
+            }
+        };
+        let collected = collect_features(&query, Arc::new(Tm(to_sf(&tr))), Arc::new(Am(to_sf(&ac))));
+        match collected {
+            Err(e) => (format!("err {}", err_s(&e)), fails, 0usize, "cf_collect_rejected"),
+            Ok(fs) => {
+                let col = format!("ok {}", sorted_feats(&fs.iter().map(|(n, f)| (n.clone(), format!("{}:{}", n, feat_s(f)))).collect::<Vec<_>>()));
+                // reference: configuration, then model features (access over traversal), then the query's
+                let mut model_ref: Vec<(String, Feat)> = vec![];
+                for (n, f) in tr.iter().chain(ac.iter()) {
+                    if let Some(e) = model_ref.iter_mut().find(|e| e.0 == *n) { e.1 = f.clone(); } else { model_ref.push((n.clone(), f.clone())); }
+                }
+                let mut entries = model_ref.clone();
+                entries.extend(us.clone().unwrap_or_default());
+                let expect = ref_extend(&cfg, &entries);
+                match m0.extend(fs) {
+                    Err(e) => {
+                        if expect.is_some() {
+                            fails.push(("state/extend-kind", format!("extend was rejected: {}", e)));
+                        }
+                        (format!("{} | err {}", col, err_s(&e)), fails, 0, "cf_extend_rejected")
+                    }
+                    Ok(m) => {
+                        let n = m.len();
+                        match &expect {
+                            None => fails.push(("state/extend-kind", "extend replaced a feature by one of a different kind".to_string())),
+                            Some(r2) => {
+                                // every feature owns exactly one slot; configured features keep theirs
+                                let mut seen = vec![false; r2.len()];
+                                if n != r2.len() {
+                                    fails.push(("state/slots-bijective", format!("len {} but {} distinct feature names", n, r2.len())));
+                                }
+                                for (name, _) in r2.iter() {
+                                    match m.slot(name) {
+                                        Some(s) if s < seen.len() && !seen[s] => seen[s] = true,
+                                        other => {
+                                            fails.push(("state/slots-bijective", format!("feature {} has slot {:?}; slots must be a permutation of 0..{}", name, other, r2.len())));
+                                            break;
+                                        }
+                                    }
+                                }
+                                for (i, (name, _)) in cfg.iter().enumerate() {
+                                    if m.slot(name) != Some(i) {
+                                        fails.push(("state/extend-slots", format!("configured feature {} moved from slot {} to {:?}", name, i, m.slot(name))));
+                                        break;
+                                    }
+                                }
+                                match m.initial_state() {
+                                    Ok(st) => {
+                                        if st.len() != r2.len() {
+                                            fails.push(("state/initial-state", format!("initial state has {} entries for {} features", st.len(), r2.len())));
+                                        } else {
+                                            for (name, f) in r2.iter() {
+                                                if let Some(sl) = m.slot(name) {
+                                                    if sl < st.len() && st[sl].0.to_bits() != f.initial().to_bits() {
+                                                        fails.push(("state/initial-state", format!("slot {} ({}) starts at {} but the declared initial value is {}", sl, name, st[sl].0, f.initial())));
+                                                        break;
+                                                    }
+                                                }
+                                            }
+                                        }
+                                    }
+                                    Err(e) => fails.push(("state/initial-state", format!("initial_state failed: {}", e))),
+                                }
+                            }
+                        }
+                        let cfgidx: Vec<String> = cfg.iter().map(|(nm, _)| m.get_state_model_index(nm)).collect();
+                        let feats = sorted_feats(&m.iter().map(|(nm, f)| (nm.clone(), format!("{}:{}", nm, feat_s(f)))).collect::<Vec<_>>());
+                        (format!("{} | ok len {} cfgidx {} feats {}", col, n, cfgidx.join(" "), feats), fails, n, "cf_extend_ok")
+                    }
+                }
+            }
+        }
+    }));
+    match res {
+        Ok((out, fails, n, branch)) => {
+            ctx.emit(idx, case.clone(), norm(out));
+            ctx.count(branch);
+            if n >= 6 {
+                ctx.nontrivial(&case);
+            }
+            if let Some((key, msg)) = fails.first() {
+                ctx.fail(idx, key, msg.clone());
+            }
+        }
+        Err(_) => {
+            ctx.emit(idx, case, "panic".to_string());
+            ctx.fail(idx, "state/panic", "collect_features / extend panicked".to_string());
+        }
+    }
+}
+
+fn cf_cases(ctx: &mut Ctx) {
+    let n = ctx.n(300, 8000);
+    for _ in 0..n {
+        let Some(idx) = ctx.begin() else { continue };
+        let mut rng = Rng::for_case(ctx.seed, 111111, idx as u64);
+        let u = 2 + rng.below(11);
+        let mut names: Vec<usize> = (0..u).collect();
+        rng.shuffle(&mut names);
+        let n_cfg = rng.below(u.min(7) + 1);
+        let cfg: Vec<(String, Feat)> = names.iter().take(n_cfg).map(|i| (format!("f{}", i), gen_feat_json_safe(&mut rng))).collect();
+        // model features: new names, or configured names mostly with the configured kind
+        let mut gen_model = |rng: &mut Rng, k: usize| -> Vec<(String, Feat)> {
+            (0..k)
+                .map(|_| {
+                    let name = format!("f{}", rng.below(u));
+                    let f = match cfg.iter().find(|e| e.0 == name) {
+                        Some((_, old)) if rng.chance(93, 100) => same_kind_variant(rng, old),
+                        _ => gen_feat_json_safe(rng),
+                    };
+                    (name, f)
+                })
+                .collect()
+        };
+        let k_tr = rng.below(6);
+        let mut tr = gen_model(&mut rng, k_tr);
+        let k_ac = rng.below(4);
+        let mut ac = gen_model(&mut rng, k_ac);
+        // the same name in both models: mostly the same kind
+        for e in ac.iter_mut() {
+            if let Some(t) = tr.iter().find(|t| t.0 == e.0) {
+                if rng.chance(90, 100) {
+                    e.1 = same_kind_variant(&mut rng, &t.1);
+                }
+            }
+        }
+        // names repeated inside one model's list keep the kind of the first
+        for list in [&mut tr, &mut ac] {
+            for i in 1..list.len() {
+                if let Some(j) = (0..i).find(|j| list[*j].0 == list[i].0) {
+                    let k = list[j].1.clone();
+                    list[i].1 = same_kind_variant(&mut rng, &k);
+                }
+            }
+        }
+        let us = if rng.chance(60, 100) {
+            let mut model_names: Vec<(String, Feat)> = vec![];
+            for (nm, f) in tr.iter().chain(ac.iter()) {
+                if let Some(e) = model_names.iter_mut().find(|e| e.0 == *nm) { e.1 = f.clone(); } else { model_names.push((nm.clone(), f.clone())); }
+            }
+            let mut v: Vec<(String, Feat)> = vec![];
+            let mut bad_used = false;
+            let k = rng.below(4);
+            for _ in 0..k {
+                if !model_names.is_empty() && (bad_used || rng.chance(85, 100)) {
+                    let (nm, f) = rng.pick(&model_names).clone();
+                    if v.iter().any(|e| e.0 == nm) {
+                        continue;
+                    }
+                    v.push((nm, same_kind_variant(&mut rng, &f)));
+                } else if !bad_used {
+                    // at most one offending entry (which of several errors is reported depends on HashMap order)
+                    bad_used = true;
+                    let nm = if rng.chance(1, 2) || model_names.is_empty() { format!("f{}", u + 1) } else { rng.pick(&model_names).0.clone() };
+                    if v.iter().any(|e| e.0 == nm) {
+                        continue;
+                    }
+                    v.push((nm, gen_feat_json_safe(&mut rng)));
+                }
+            }
+            Some(v)
+        } else {
+            None
+        };
+        run_cf(ctx, idx, cfg, tr, ac, us);
+    }
+}
+
 pub fn run(ctx: &mut Ctx) -> &'static str {
     container_cases(ctx);
     sm_cases(ctx);
-    "container: operation histories (empty/new/From/from_iter, then inserts of new keys and overwrites) over universes of 0..40 keys, every accessor observed after every operation; state model: 0..12 features of all seven kinds and all units built by new and extended, then initial_state / get / set / add / custom codecs / get_delta / serialize sequences, doubles compared bit-exactly; non-trivial = distinct history in which the container (or the state model) holds 6 or more entries at some point (beyond every small-size representation); distinct by full case text"
+    cf_cases(ctx);
+    "container: operation histories (empty/new/From/from_iter, then inserts of new keys and overwrites) over universes of 0..40 keys, every accessor observed after every operation; state model: 0..12 features of all seven kinds and all units built by new and extended, then initial_state / get / set / add / custom codecs / get_delta / serialize sequences, doubles compared bit-exactly; collect_features + extend with configured, traversal-model, access-model and query features; non-trivial = distinct history in which the container (or the state model) holds 6 or more entries at some point (beyond every small-size representation); distinct by full case text"
 }
